@@ -103,7 +103,7 @@ pub fn run(case: &Value, ctx: &Ctx) -> Outcome {
                 }
             }
             let recs: Vec<gen::Rec> = sites.iter().enumerate().map(|(r, g)| gen::Rec {
-                contig: "chr1".into(), pos: (r + 1) as u64, bad: false, nogt: false,
+                contig: "chr1".into(), pos: (r + 1) as u64, bad: false, nogt: false, short_alt: false,
                 gt: cols.iter().cloned().zip(g.iter().enumerate().map(|(i, &x)| match x { 0 => "0/0", 1 => if (i + r) % 2 == 0 { "0/1" } else { "1|0" }, _ => "1/1" }.to_string())).collect(),
             }).collect();
             let vcf = gen::vcf_text(&cols, &recs, false);
@@ -155,7 +155,10 @@ pub fn run(case: &Value, ctx: &Ctx) -> Outcome {
                 let got_lines: Vec<&str> = got.lines().collect();
                 out.check(r.ok() && got_lines == want_lines && got.ends_with('\n'), || "stats/layout/stdout".into(), || json!({"args": args, "got": got, "want": want_lines, "stderr": r.stderr}));
             } else {
-                out.check(!r.ok() && r.stdout.is_empty() && !r.stderr.trim().is_empty(), || "stats/layout/error-case".into(), || json!({"args": args, "code": r.code, "stdout": String::from_utf8_lossy(&r.stdout), "stderr": r.stderr}));
+                // nothing but what the model allows before the failure (at most the header line), and never a row
+                let got = String::from_utf8_lossy(&r.stdout).to_string();
+                let got_lines: Vec<&str> = got.lines().collect();
+                out.check(!r.ok() && got_lines == want_lines && !r.stderr.trim().is_empty(), || "stats/layout/error-case".into(), || json!({"args": args, "code": r.code, "stdout": String::from_utf8_lossy(&r.stdout), "stderr": r.stderr}));
             }
         }
         other => out.fail("stats/unknown-kind", json!(other)),
